@@ -236,7 +236,8 @@ func NewCacheFile(cachePath string) (*cacheFile, error) {
 	// read the file header
 	fh := converterCacheFileHeader{}
 	if err := binary.Read(buffer, binary.LittleEndian, &fh); err != nil {
-		if err == io.EOF {
+		if err == io.EOF || errors.Is(err, io.ErrUnexpectedEOF) {
+			// empty, or the file header itself was only partly written: there is no record yet
 			if err := res.Reset(); err != nil {
 				return nil, fmt.Errorf("failed to reset cache file: %w", err)
 			}
